@@ -10,7 +10,8 @@ rows = ['| prop | seeded change | what it does | needs to manifest | detected by
 for d in sorted(glob.glob(os.path.join(VERIF, 'seeded', '*', 'meta.json'))):
     m = json.load(open(d))
     rows.append('| %s | `%s` | %s | %s | %s |' % (m['property'], m['name'], m['description'].replace('|', '/')[:260],
-                                               m['needs_to_manifest'].replace('|', '/')[:220], ', '.join(m.get('detected_by') or []) or 'none'))
+                                               m['needs_to_manifest'].replace('|', '/')[:220], ('obsolete: masked by a later repository fix (see meta.json)' if m.get('obsolete') else
+                                                ', '.join(m.get('detected_by') or []) or 'none')))
 p = os.path.join(VERIF, 'DESIGN.md')
 s = open(p).read()
 b, e = '<!-- SEEDED-TABLE-BEGIN -->', '<!-- SEEDED-TABLE-END -->'
